@@ -79,8 +79,13 @@ def trace_run(target, spec, width=None):
     try:
         G.glom(target, spec, scope={G.glom: tracer})
     except G.GlomError as exc:
-        text = str(exc)
-        if not hasattr(exc, '_target_spec_trace'):
+        str_failed = None
+        try:
+            text = str(exc)
+        except BaseException as se:      # the error has no message at all
+            text = ''
+            str_failed = type(se).__name__
+        if str_failed is None and not hasattr(exc, '_target_spec_trace'):
             return None
         root_frame = exc._scope          # the root call's frame
         wrapped = getattr(exc, '_GlomError__wrapped', None)
@@ -117,7 +122,8 @@ def trace_run(target, spec, width=None):
             return None
         ev_out.append(['err', eid(wrapped)])
         return {'events': ev_out, 'errors': [[n, t] for n, t in errs.values()], 'root_error': eid(wrapped),
-                'width': core.TRACE_WIDTH, 'impl': {'trace': exc._target_spec_trace}}
+                'width': core.TRACE_WIDTH,
+                'impl': {'trace': getattr(exc, '_target_spec_trace', ''), 'message': text, 'str_failed': str_failed}}
     except Exception:
         return None
     return None
@@ -156,6 +162,9 @@ def generate(rng, tier, scale, **focus):
             t = g.target()
         depth = rng.choice([2, 3, 3]) if tier == 'quick' else rng.choice([2, 3, 3, 4])
         spec = g.spec(t, depth)
+        if rng.random() < 0.08:
+            # the original error has a multi-line message (blank and caret-only lines included)
+            spec = {'k': rng.choice(['tuple', 'pipe']), 'xs': [spec, g.fn('raise_multiline')]}
         yield {'spec': spec, 'target': ic.enc(t), 'width': rng.choice(WIDTHS), '_gen': True}
         made += 1
 
@@ -228,7 +237,7 @@ def _rerender(target, spec, width, rec):
             return None
         out = dict(rec)
         out['width'] = width
-        out['impl'] = {'trace': text}
+        out['impl'] = {'trace': text, 'message': rec['impl'].get('message')}
         return out
     return None
 
